@@ -23,11 +23,18 @@ CORE = ["word", "#hash", "[br]", "  two", "", "café → ✓ \U0001F600", ":fiel
 INDENTS = ["", " ", "  ", "    ", "      ", "        ", "\t", "\t\t", " \t"]
 CARRIERS = ["function", "macro", "set", "option", "generic", "add_test", "ct_add_test", "ct_add_section",
             "class1", "class2", "class3", "attr1", "attr3", "member1", "member2", "member3", "ctor1", "ctor2",
-            "module_named", "module_unnamed"]
+            "test_impldoc", "member_impldoc", "module_named", "module_unnamed"]
 
 
 def carrier_events(carrier, body, tag="a"):
     """returns (events, index of the documented item)"""
+    if carrier in ("test_impldoc", "member_impldoc"):
+        # the doccomment under test sits on the definition that implements the declaration
+        if carrier == "test_impldoc":
+            return [{"k": "ct_add_test", "doc": 1, "doctext": ["Declaration doc " + tag + "."], "impldoc": list(body)}], 0
+        return [{"k": "cpp_class", "doc": 0},
+                {"k": "cpp_member", "doc": 1, "doctext": ["Declaration doc " + tag + "."], "impldoc": list(body),
+                 "types": ["int"], "params": ["a"]}], 1
     d = {"doc": 1, "doctext": list(body)}
     if carrier == "generic":
         return [dict(k="generic", cmd="gcmd_" + tag, **d)], 0
@@ -55,6 +62,12 @@ def carrier_events(carrier, body, tag="a"):
 
 def find_block(page, events, idx):
     ev = events[idx]
+    if ev.get("impldoc"):
+        # the implementing definition's own entry: the block (other than the declaration's) whose first argument is
+        # the reference to the declared name
+        nm0 = name_of(ev, idx) if ev["k"] != "cpp_constructor" else ev.get("ctor", "CTOR")
+        return [b for top in page.blocks for b in top.walk()
+                if b.name == "function" and ("${" + nm0 + "}") in b.arg.split("(")[0]]
     if ev["k"] == "module":
         return page.module()
     nm = ev.get("ctor", "CTOR") if ev["k"] == "cpp_constructor" else ev.get("cmd", "message").lower() if ev["k"] == "generic" else name_of(ev, idx)
@@ -68,11 +81,11 @@ def find_block(page, events, idx):
 
 
 def dedent(lines):
-    """common indent removed; trailing whitespace is not part of the comparison (the statement lists relative
-    indentation, blank lines, punctuation and non-ASCII characters)"""
+    """common indent removed; a non-blank line is compared exactly (its trailing spaces are part of 'the text that
+    remains'), whitespace-only lines count as blank lines"""
     ind = [len(l) - len(l.lstrip(" ")) for l in lines if l.strip()]
     c = min(ind, default=0)
-    return [l[c:].rstrip() if l.strip() else "" for l in lines]
+    return [l[c:] if l.strip() else "" for l in lines]
 
 
 def run_matches(hay, needle):
@@ -227,7 +240,7 @@ def run(ctx):
                 jobs.append(("pair", c1, c2, [f"Marker first {c1}.", a], [a, f"Marker second {c2}."], "", True))
     # twins: the same documented command twice (e.g. in the branches of an if)
     for c in CARRIERS:
-        if c.startswith("module") or c.startswith(("attr", "member", "ctor", "class")) and c[-1] != "1":
+        if c.startswith("module") or c.endswith("impldoc") or c.startswith(("attr", "member", "ctor", "class")) and c[-1] != "1":
             continue
         for a in (["Twin doc line."], ["Twin doc.", "", "  second"]):
             jobs.append(("twin", c, a))
